@@ -39,6 +39,12 @@ CLAIMED = {
  "C10": ("Trivia templates rendered with CRLF/mixed endings and space/mixed indentation (incl. block comments with mixed interior endings), formatted under every (line_endings, indent_type, indent_width) x widths; "
          "per-line whitespace classes from the own lexer judged by Layout!WhitespaceFails in TLC; ignored text exempt.",
          "G->R->V: Layout!WhitespaceFails on recorded per-line classes", "5 C10"),
+ "C11": ("Call shapes (MC_Calls: argument kinds x sugar/paren form x what follows x position) under every call_parentheses x space_after_function_names value and every column width; all string bodies of the C04 "
+         "enumeration under the 4 quote styles; TLC judges each output call site (aligned with the input's), each `name (` occurrence and each string token with Options!CallFails / HeaderFails / Strings!RuleQuote.",
+         "G->R->V: Options!CallFails/HeaderFails/QuoteFails on recorded call, header and string tables", "5 C11"),
+ "C12": ("Top-level sequences of require / GetService locals (duplicate and mixed-case names), other statements, blank/comment separators, directives, semicolons, trailing comments, range markers (MC_SortRequires), "
+         "with the option on and off; TLC judges permutation, group locality, NAME order (stable), ignored/out-of-range groups, census; the Impl model (partition + stable sort) is bound by drift detection.",
+         "TLC model SortRequires (Fails + ImplPos drift) on recorded top-level statement facts", "5 C12"),
 }
 checks = []
 for pid, (text, tech, ref) in sorted(CLAIMED.items()):
